@@ -167,6 +167,7 @@ fn apply_in_txn(w: &mut QueryServerWriteTransaction<'_>, op: &UOp) -> Result<(),
 const SIG_UUID: &str = "two stored entries share a uuid";
 const SIG_UNIQUE: &str = "two live entries share a value of a unique attribute";
 const SIG_CLASH: &str = "an entry involved in a cross-replica uniqueness clash is still live after the full mesh";
+const SIG_LOCAL_MARK: &str = "clash participant carries the conflict marker (classes conflict+recycled) on some replicas only, with equal class change ids (marker added locally without a change id)";
 const SIG_APPLY: &str = "consumer failed to apply a supplied change set";
 
 /// Independent scan. Returns discrepancies.
@@ -418,12 +419,52 @@ async fn run(c: &Case, partitioned: bool) -> Outcome {
         }
         let skip = rh::non_replicated(&cl, &dumps).await;
         let diffs = rh::compare(&dumps, &skip);
+        if std::env::var_os("VF_C19_DEBUG").is_some() {
+            eprintln!("c19 debug: must_conflict={must_conflict:?} partitioned={partitioned}");
+            for d in &diffs {
+                eprintln!("c19 debug diff: {d:?}");
+            }
+            for (i, d) in dumps.iter().enumerate() {
+                for (u, e) in d.iter() {
+                    if u.to_string().starts_with("aaaa0000-0000-4000-8000-0003") {
+                        eprintln!("c19 debug r{i} {u}: {:?}", e);
+                    }
+                }
+            }
+        }
         let (unexplained, stale_msg, stranded_msg, self_msg) = rh::split_stale_local(&cl, &dumps, &diffs).await;
+        // Known finding: a clash participant carries the conflict marker (classes conflict + recycled) on some
+        // replicas only, although the change id of `class` is the same everywhere - the marker is added locally
+        // without a change id, so replicas that did not meet the clash themselves never learn of it.
+        // Fingerprint per (replica pair, entry): equal class change ids, class sets differ exactly by
+        // {conflict, recycled}, and the only differences are the status line and the class line.
+        let all_unexplained = unexplained.clone();
+        let local_mark = |i: usize, u: &str| -> bool {
+            let Ok(uu) = u.parse::<Uuid>() else { return false };
+            let (Some(a), Some(b)) = (dumps[0].get(&uu), dumps[i].get(&uu)) else { return false };
+            if a.changes.get("class").is_none() || a.changes.get("class") != b.changes.get("class") {
+                return false;
+            }
+            let ca: BTreeSet<&String> = a.attrs.get("class").map(|v| v.iter().collect()).unwrap_or_default();
+            let cb: BTreeSet<&String> = b.attrs.get("class").map(|v| v.iter().collect()).unwrap_or_default();
+            let sd: BTreeSet<String> = ca.symmetric_difference(&cb).map(|s| s.trim_matches('"').to_string()).collect();
+            let want: BTreeSet<String> = ["conflict", "recycled"].iter().map(|s| s.to_string()).collect();
+            sd == want
+                && all_unexplained.iter().filter(|(j, l)| *j == i && l.starts_with(u)).all(|(_, l)| {
+                    let rest = l.splitn(2, ": ").nth(1).unwrap_or("");
+                    rest.starts_with("status ") || rest.starts_with("attr class:")
+                })
+        };
+        let (marked, unexplained): (Vec<_>, Vec<_>) = unexplained.into_iter().partition(|(i, l)| local_mark(*i, l.split(": ").next().unwrap_or("")));
         if let Some((i, first)) = unexplained.first() {
             log.fail(
                 "replicas differ after quiescence (uniqueness history)",
                 format!("replica 0 vs {i}: {} differences, first unexplained: {first}", diffs.len()),
             );
+        }
+        if let Some((i, first)) = marked.first() {
+            log.class("diverged:local-conflict-marker");
+            log.fail(SIG_LOCAL_MARK, format!("replica 0 vs {i}: {first} ({} lines)", marked.len()));
         }
         if let Some(m) = self_msg {
             log.class("diverged:self-source-marker");
